@@ -633,7 +633,11 @@ pub fn run(case: &str, st: &mut Stats) -> Outcome {
                 });
             }
             let (Ans::N(l), Ans::N(s), Ans::C(c)) = (cl, cs, cn) else { unreachable!() };
-            out.push(format!("{name}:L={l},S={s},ev={ev},cn={c}"));
+            // the node count of an UNCOMPRESSED result depends on its shape, which no property fixes
+            // (the oracle still checks it against the nodes actually reachable): compared only for
+            // the compressing builder, whose results are canonical
+            let cshow = if compress { c.to_string() } else { "*".to_string() };
+            out.push(format!("{name}:L={l},S={s},ev={ev},cn={cshow}"));
         }
     }
     // replay: every query again, in reverse order (so between a query and its repetition lie
